@@ -23,12 +23,12 @@ type Op uint8
 const (
 	OpConst Op = iota
 	OpVar
-	OpNot  // bool not
-	OpAnd  // bool and (n-ary binary)
-	OpOr   // bool or
-	OpEq   // equality on same-sorted terms -> Bool
-	OpIte  // ite(c, a, b) any sort
-	OpUlt  // bv unsigned <
+	OpNot // bool not
+	OpAnd // bool and (n-ary binary)
+	OpOr  // bool or
+	OpEq  // equality on same-sorted terms -> Bool
+	OpIte // ite(c, a, b) any sort
+	OpUlt // bv unsigned <
 	OpUle
 	OpSlt
 	OpSle
@@ -51,8 +51,8 @@ const (
 	OpExtract // K = hi<<8 | lo
 	OpZext    // result width W
 	OpSext
-	OpSelect // array select
-	OpStore  // array store
+	OpSelect   // array select
+	OpStore    // array store
 	OpConstArr // constant array, K = byte
 )
 
